@@ -787,6 +787,9 @@ fn run_probe(tb: &Table, base: &St, probe: &Probe) -> Result<ProbeOut, V> {
         FilterSpec::Underlyings(x) if x.len() == 1 => "filter:Underlyings:one",
         FilterSpec::Underlyings(_) => "filter:Underlyings:many",
     });
+    if matches!(&probe.filter, FilterSpec::Exchanges(x) if x.is_empty()) || matches!(&probe.filter, FilterSpec::Instruments(x) if x.is_empty()) || matches!(&probe.filter, FilterSpec::Underlyings(x) if x.is_empty()) {
+        out.cells.insert("filter:empty_subset");
+    }
     if n_match == 0 {
         out.cells.insert(if probe.close { "filter_matches_nothing:close" } else { "filter_matches_nothing:cancel" });
     }
@@ -917,6 +920,66 @@ fn run_probe(tb: &Table, base: &St, probe: &Probe) -> Result<ProbeOut, V> {
             }
         }
         out.cells.insert(if probe.close { "direct_method_round:close" } else { "direct_method_round:cancel" });
+    }
+
+    // ---- snapshot interlude: cancel command, then a FULL account snapshot of every exchange that still lists the
+    // tracked orders as open (the venue has not processed the cancels yet), then the command again. The first is
+    // still in flight - no cancel has been answered - so the repeat requests nothing new.
+    if !probe.close {
+        use barter_execution::{AccountEventKind, AccountSnapshot, InstrumentAccountSnapshot};
+        let links = new_links(tb);
+        let mut engine = engine_over(tb, base.clone(), &links);
+        let command = Command::CancelOrders(filter.clone());
+        catch(|| engine.process(EngineEvent::Command(command.clone()))).map_err(|msg| ("panic_in_engine_process", format!("snapshot interlude: {msg}")))?;
+        let first = drain(&links);
+        for e in 0..tb.n_ex {
+            let instruments: Vec<InstrumentAccountSnapshot<ExchangeIndex, AssetIndex, InstrumentIndex>> = (0..tb.n)
+                .filter(|i| tb.ex_of[*i] == e)
+                .map(|i| InstrumentAccountSnapshot {
+                    instrument: InstrumentIndex(i),
+                    orders: istate(&engine.state, i)
+                        .orders
+                        .0
+                        .values()
+                        .map(|o| {
+                            let held = match &o.state {
+                                ActiveOrderState::Open(open) => Some(open.clone()),
+                                ActiveOrderState::CancelInFlight(c) => c.order.clone(),
+                                ActiveOrderState::OpenInFlight(_) => None,
+                            };
+                            let open = Open {
+                                id: held.as_ref().map(|h| h.id.clone()).unwrap_or_else(|| OrderId::new(xid(o.key.cid.0.as_str()))),
+                                time_exchange: fixtures::t(4_000_000_000),
+                                filled_quantity: held.map(|h| h.filled_quantity).unwrap_or(Decimal::ZERO),
+                            };
+                            Order { key: o.key.clone(), side: o.side, price: o.price, quantity: o.quantity, kind: o.kind, time_in_force: o.time_in_force, state: OrderState::active(open) }
+                        })
+                        .collect(),
+                })
+                .collect();
+            let ev = fixtures::ev_account(e, AccountEventKind::Snapshot(AccountSnapshot { exchange: ExchangeIndex(e), balances: vec![], instruments }));
+            catch(|| engine.process(ev)).map_err(|msg| ("panic_in_engine_process", format!("snapshot interlude: {msg}")))?;
+        }
+        let between = drain(&links);
+        catch(|| engine.process(EngineEvent::Command(command))).map_err(|msg| ("panic_in_engine_process", format!("snapshot interlude: {msg}")))?;
+        let second = drain(&links);
+        out.checks += 1;
+        if !between.cancels.is_empty() || !between.opens.is_empty() {
+            return Err(("HARNESS_snapshot_triggered_requests", format!("{:?} {:?}", between.cancels, between.opens)));
+        }
+        if !second.cancels.is_empty() || !second.opens.is_empty() {
+            return Err((
+                "repeated_cancel_command_sent_requests",
+                format!(
+                    "CancelOrders, then a full account snapshot per exchange that still lists the tracked orders open (no cancel answered yet), then the identical command: the first delivered {} cancels, the repeat delivered {:?}",
+                    first.cancels.len(),
+                    second.cancels
+                ),
+            ));
+        }
+        if !first.cancels.is_empty() {
+            out.cells.insert("repeated_cancel_after_account_snapshot_sends_nothing");
+        }
     }
 
     // ---- dead-link round: the same command on the same state while ONE exchange's execution link is gone.
@@ -1213,6 +1276,10 @@ fn gen_filters(rng: &mut Rng, tb: &Table, exhaustive: bool, sample: usize) -> Ve
     if rng.bool() {
         fs.push(FilterSpec::Instruments(if rng.bool() { vec![tb.n + rng.usize_below(5)] } else { vec![rng.usize_below(tb.n), tb.n + 2] }));
     }
+    // the EMPTY subset of exchanges / instruments / underlyings selects nothing (it is not "no filter")
+    fs.push(FilterSpec::Exchanges(vec![]));
+    fs.push(FilterSpec::Instruments(vec![]));
+    fs.push(FilterSpec::Underlyings(vec![]));
     // a filter is a plain list: naming a member twice selects it once (a subset is a set)
     {
         let i = rng.usize_below(tb.n);
@@ -1524,6 +1591,8 @@ fn main() {
             "repeated_close_judged_by_same_rule",
             "dead_link_round:cancel",
             "direct_method_round:cancel",
+            "filter:empty_subset",
+            "repeated_cancel_after_account_snapshot_sends_nothing",
             "direct_method_round:close",
             "dead_link_round:close",
             "dead_link_round:healthy_exchange_after_the_dead_one",
